@@ -68,24 +68,24 @@ IncDigits(d) == IF d = "" THEN "1"
                 ELSE IF Ch(d, Len(d)) = "9" THEN IncDigits(SubSeq(d, 1, Len(d) - 1)) \o "0"
                 ELSE SubSeq(d, 1, Len(d) - 1) \o ToString(ToNat(Ch(d, Len(d))) + 1)
 AllZero(d) == \A i \in 1..Len(d) : Ch(d, i) = "0"
-\* Sprintf("%.2f", ParseFloat(s)): [known, text].  The float64 nearest to a decimal text is not that decimal, so a digit
+\* Sprintf("%.<n>f", ParseFloat(s)): [known, text].  The float64 nearest to a decimal text is not that decimal, so a digit
 \* string cut exactly at ...5 may round either way: such ties are reported as unknown instead of guessed.
-Fmt2(s) ==
+FmtDec(s, n) ==
   LET d == DecDigits(s)  sc == DecScale(s)
-      \* bring to exactly two decimals: hundredths as a digit string h
-      h == IF sc <= 2 THEN [known |-> TRUE, d |-> d \o Zeros(2 - sc)]
-           ELSE LET cut == sc - 2
+      \* bring to exactly n decimals: the value times 10^n as a digit string h
+      h == IF sc <= n THEN [known |-> TRUE, d |-> d \o Zeros(n - sc)]
+           ELSE LET cut == sc - n
                     padded == Zeros(cut - Len(d) + 1) \o d          \* at least cut+1 digits
                     keep == SubSeq(padded, 1, Len(padded) - cut)
                     rest == SubSeq(padded, Len(padded) - cut + 1, Len(padded))
                     first == ToNat(Ch(rest, 1))
                     tie == first = 5 /\ AllZero(Tail(rest))
                 IN [known |-> ~tie, d |-> IF first >= 5 THEN IncDigits(keep) ELSE keep]
-      p == Zeros(3 - Len(h.d)) \o h.d
-      ip == StripZeros(SubSeq(p, 1, Len(p) - 2))
-      txt == ip \o "." \o SubSeq(p, Len(p) - 1, Len(p))
-      zero == AllZero(h.d)
-  IN [known |-> h.known /\ sc < 400 /\ sc > -400, text |-> IF Neg(s) /\ (~zero \/ ~AllZero(d)) THEN "-" \o txt ELSE txt]
+      p == Zeros(n + 1 - Len(h.d)) \o h.d
+      ip == StripZeros(SubSeq(p, 1, Len(p) - n))
+      txt == ip \o "." \o SubSeq(p, Len(p) - n + 1, Len(p))
+  IN [known |-> h.known /\ sc < 400 /\ sc > -400, text |-> IF Neg(s) /\ ~AllZero(d) THEN "-" \o txt ELSE txt]
+Fmt2(s) == FmtDec(s, 2)
 
 \* ---- serialize() and the render functions ------------------------------------------------------------------
 R(ok, s, params, known) == [ok |-> ok, s |-> s, params |-> params, known |-> known]
